@@ -235,4 +235,181 @@ theorem tie_add_objects_list (s : St) (os : List Obj) (refs : Option (List Nat))
   unfold Gen.Scenario_add_objects_list addList
   simp only [tryE_ret, tie_add_objects, forE_eq_forEach]
 
+
+/-! ### removals -/
+
+theorem idSetRemove_eq_release (s : St) (k : Nat) : idSetRemove s k = release s k := by
+  unfold idSetRemove release setDel
+  rfl
+
+/-- `remove_obstacle` (one obstacle): looked up in the four dicts in the order static, dynamic, environment, phantom;
+    deleted from that dict AND its id released; an unknown id changes nothing. -/
+theorem tie_remove_obstacle (s : St) (k : Nat) :
+    Gen.Scenario_remove_obstacle s k = removeObstacle s k := by
+  unfold Gen.Scenario_remove_obstacle removeObstacle
+  by_cases h1 : k ∈ s.stat
+  · simp [h1, delStat, setDel, idSetRemove_eq_release]
+  · by_cases h2 : k ∈ s.dyn
+    · simp [h1, h2, delDyn, setDel, idSetRemove_eq_release]
+    · by_cases h3 : k ∈ s.env
+      · simp [h1, h2, h3, delEnv, setDel, idSetRemove_eq_release]
+      · by_cases h4 : k ∈ s.phan
+        · simp [h1, h2, h3, h4, delPhan, setDel, idSetRemove_eq_release]
+        · simp [h1, h2, h3, h4]
+
+theorem tie_remove_obstacle_list (s : St) (ks : List Nat) :
+    Gen.Scenario_remove_obstacle_list s ks = removeObstacles s ks := by
+  unfold Gen.Scenario_remove_obstacle_list removeObstacles
+  simp only [tryE_ret, tie_remove_obstacle, forE_eq_forEach]
+
+/-- `remove_traffic_sign` (one sign): KeyError before any change if it is not contained; otherwise deleted from the
+    network and its id released. -/
+theorem tie_remove_traffic_sign (s : St) (k : Nat) :
+    Gen.Scenario_remove_traffic_sign s k = removeSign s k := by
+  unfold Gen.Scenario_remove_traffic_sign removeSign removeSignBody
+  by_cases h : k ∈ s.net.signs <;> simp [h, findSign, idSetRemove_eq_release]
+
+theorem tie_remove_traffic_sign_list (s : St) (ks : List Nat) :
+    Gen.Scenario_remove_traffic_sign_list s ks = removeSigns s ks := by
+  unfold Gen.Scenario_remove_traffic_sign_list removeSigns
+  simp only [tryE_ret, tie_remove_traffic_sign, forE_eq_forEach]
+
+theorem tie_remove_traffic_light (s : St) (k : Nat) :
+    Gen.Scenario_remove_traffic_light s k = removeLight s k := by
+  unfold Gen.Scenario_remove_traffic_light removeLight removeLightBody
+  by_cases h : k ∈ s.net.lights <;> simp [h, findLight, idSetRemove_eq_release]
+
+theorem tie_remove_traffic_light_list (s : St) (ks : List Nat) :
+    Gen.Scenario_remove_traffic_light_list s ks = removeLights s ks := by
+  unfold Gen.Scenario_remove_traffic_light_list removeLights
+  simp only [tryE_ret, tie_remove_traffic_light, forE_eq_forEach]
+
+/-- `remove_intersection` (one intersection): looked up by id (KeyError if absent); deleted, its id released, then
+    the id of every incoming element of the CONTAINED intersection. -/
+theorem tie_remove_intersection (s : St) (i : Inter) :
+    Gen.Scenario_remove_intersection s i = removeInter s i := by
+  unfold Gen.Scenario_remove_intersection removeInter removeInterBody findInter
+  cases h : s.net.inters.find? (fun j => j.id = i.id) with
+  | none => simp
+  | some j =>
+    have hj : j.id = i.id := by simpa using List.find?_some h
+    simp only [Option.isNone_some, Bool.false_eq_true, if_false, Option.getD_some, tryE_ret]
+    simp only [tryE_eq_andThen, forE_eq_forEach, idSetRemove_eq_release, hj]
+
+theorem tie_remove_intersection_list (s : St) (is : List Inter) :
+    Gen.Scenario_remove_intersection_list s is = removeInters s is := by
+  unfold Gen.Scenario_remove_intersection_list removeInters
+  simp only [tryE_ret, tie_remove_intersection, forE_eq_forEach]
+
+
+/-! ### remove_hanging_lanelet_members / remove_lanelet / erase / replace -/
+
+/-- a loop `for t in xs: if p(t): acc.append(g(t))` collects `g` over the filtered list -/
+theorem foldl_collect {α β : Type} (f : List β → α → List β) (p : α → Bool) (g : α → β)
+    (hf : ∀ acc t, f acc t = if p t then acc ++ [g t] else acc) (xs : List α) (acc : List β) :
+    xs.foldl f acc = acc ++ (xs.filter p).map g := by
+  induction xs generalizing acc with
+  | nil => simp
+  | cons x xs ih =>
+    simp only [List.foldl_cons, ih, hf]
+    by_cases h : p x <;> simp [h]
+
+/-- the objects `find_*_by_id` returns for ids taken from the dict itself are these ids -/
+theorem somes_find (find : Nat → Option Nat) (xs : List Nat) (h : ∀ t ∈ xs, find t = some t) :
+    somes (xs.map find) = xs := by
+  induction xs with
+  | nil => rfl
+  | cons x xs ih =>
+    have hx := h x (by simp)
+    have := ih (fun t ht => h t (by simp [ht]))
+    simp only [somes] at this ⊢
+    simp [hx, this]
+
+theorem hanging_eq (find : Nat → Option Nat) (xs : List Nat) (hfind : ∀ t ∈ xs, find t = some t)
+    (ls rem : List (List Nat)) :
+    somes ((xs.filter (fun t => decide (t ∈ setDiff (unionAll ls) (unionAll rem)))).map find)
+      = xs.filter (fun t => t ∈ ls.flatMap id ∧ t ∉ rem.flatMap id) := by
+  rw [somes_find]
+  · apply List.filter_congr
+    intro t _
+    rw [decide_eq_decide]
+    simp only [setDiff, unionAll, List.mem_filter]
+    constructor
+    · intro h; exact ⟨h.1, of_decide_eq_true h.2⟩
+    · intro h; exact ⟨h.1, decide_eq_true h.2⟩
+  · intro t ht
+    exact hfind t (List.mem_filter.mp ht).1
+
+/-- `remove_hanging_lanelet_members`: the signs / lights referenced by the lanelets to remove and by no remaining
+    lanelet, as far as they exist in the network, are removed (signs first), each with its id. -/
+theorem tie_remove_hanging_lanelet_members (s : St) (ls : List Lanelet) :
+    Gen.Scenario_remove_hanging_lanelet_members s ls = removeHanging s ls := by
+  unfold Gen.Scenario_remove_hanging_lanelet_members removeHanging hangingSigns hangingLights
+  simp only [tryE_ret]
+  rw [foldl_collect _ _ _ (by intro acc t; rfl), foldl_collect _ _ _ (by intro acc t; rfl)]
+  simp only [List.nil_append, tie_remove_traffic_sign_list, tie_remove_traffic_light_list, tryE_eq_andThen]
+  rw [hanging_eq _ _ (by intro t ht; simp [findSign, ht]), hanging_eq _ _ (by intro t ht; simp [findLight, ht])]
+  simp [List.flatMap_map]
+
+theorem drop_loop (f : St → Lanelet → St × Out)
+    (hf : ∀ s l, f s l = if (findLanelet s.net l.id).isNone then (s, .err .key)
+      else idSetRemove { s with net := s.net.removeLanelet l.id } l.id)
+    (s : St) (ls : List Lanelet) : forE f s ls = forEach dropLanelet s ls := by
+  rw [forE_eq_forEach]
+  congr 1
+  funext s l
+  rw [hf]
+  unfold dropLanelet dropLaneletBody
+  by_cases h : l.id ∈ s.net.lanelets.map (·.id)
+  · obtain ⟨x, hx⟩ := Option.isSome_iff_exists.mp ((findLanelet_isSome s.net l.id).mpr h)
+    simp only [hx, Option.isNone_some, Bool.false_eq_true, if_false, if_pos h, idSetRemove_eq_release]
+  · have hx : findLanelet s.net l.id = none := by
+      cases hx : findLanelet s.net l.id with
+      | none => rfl
+      | some x => exact absurd ((findLanelet_isSome s.net l.id).mp (by simp [hx])) h
+    simp only [hx, Option.isNone_none, if_true, if_neg h]
+
+/-- `remove_lanelet` (list form): hanging signs / lights first (if asked for), then every listed lanelet: KeyError
+    if it is not contained, else deleted from the network and its id released. -/
+theorem tie_remove_lanelet_list (s : St) (ls : List Lanelet) (refd : Bool) :
+    Gen.Scenario_remove_lanelet_list s ls refd = removeLanelets s ls refd := by
+  unfold Gen.Scenario_remove_lanelet_list removeLanelets
+  simp only [tryE_ret, tie_remove_hanging_lanelet_members]
+  simp only [drop_loop _ (fun _ _ => rfl), tryE_eq_andThen]
+  cases refd <;> simp [removeHanging, andThen]
+
+/-- `remove_lanelet` (one lanelet) wraps it into a list. -/
+theorem tie_remove_lanelet (s : St) (l : Lanelet) (refd : Bool) :
+    Gen.Scenario_remove_lanelet s l refd = removeLanelets s [l] refd := by
+  unfold Gen.Scenario_remove_lanelet removeLanelets
+  simp only [tryE_ret, tie_remove_hanging_lanelet_members]
+  simp only [drop_loop _ (fun _ _ => rfl), tryE_eq_andThen]
+  cases refd <;> simp [removeHanging, andThen]
+
+theorem erase_loop (f : St → Nat → St × Out)
+    (hf : ∀ s k, f s k = withLanelet s k (fun l => removeLanelets s [l] true)) (s : St) (ks : List Nat) :
+    forE f s ks = forEach eraseLanelet s ks := by
+  rw [forE_eq_forEach]
+  congr 1
+  funext s k
+  rw [hf]
+  unfold withLanelet eraseLanelet
+  rfl
+
+/-- `erase_lanelet_network`: every lanelet (with its hanging signs / lights), then the remaining signs, lights,
+    intersections are removed through the removal operations (ids released), then the network object is replaced. -/
+theorem tie_erase_lanelet_network (s : St) : Gen.Scenario_erase_lanelet_network s = erase s := by
+  unfold Gen.Scenario_erase_lanelet_network erase
+  simp only [tryE_ret, tie_remove_lanelet, tie_remove_traffic_sign, tie_remove_traffic_light, tie_remove_intersection]
+  rw [erase_loop _ (fun _ _ => rfl)]
+  simp only [forE_eq_forEach, tryE_eq_andThen]
+
+/-- `replace_lanelet_network` = erase, then `add_objects(network)`. -/
+theorem tie_replace_lanelet_network (s : St) (n : Net) :
+    Gen.Scenario_replace_lanelet_network s n = replaceNet s n := by
+  unfold Gen.Scenario_replace_lanelet_network replaceNet
+  simp only [tryE_ret]
+  simp only [tie_erase_lanelet_network, tie_add_objects, tryE_eq_andThen]
+  simp [addObj]
+
 end CR.IdPool
